@@ -2,6 +2,10 @@
 package rules
 
 import (
+	"fmt"
+	"go/token"
+	"go/types"
+	"sort"
 	"strings"
 
 	"nechk/core"
@@ -78,5 +82,251 @@ func NoSharedState(c *Ctx, prop string) {
 	}
 	for _, f := range found {
 		c.R.Unk(rule, "package-level state "+f[:strings.Index(f, " (")], "", "process-global mutable state reachable from the property's functions: "+f+"; what it caches or counts is not governed by any rule of this property (stale authority, cross-connection leakage)")
+	}
+}
+
+// SharedUtilities is evaluated after every rule set: the small shared pieces
+// every anchored function takes for granted - option delivery (GetOpts and the
+// With* constructors), IsNil, the known-ALPN predicate, the temporary-error
+// wrapper - keep the meaning the rules of each property assume. They are
+// read from the repository's own code; each is one obligation per construct.
+func SharedUtilities(c *Ctx, prop string) {
+	rule := "R-" + prop + ".U"
+	p, r := c.P, c.R
+	r.Rule(rule, "shared utilities keep their meaning: GetOpts applies every non-nil option of the whole list in order (a nil option is skipped, never ends the loop); every With* constructor stores exactly its argument into the field of its name on its only path (frozen exceptions: WithCertificateLifetime 0 -> default, WithAlpnProtoPrefix validates against the three known prefixes, WithExtraAlpnProtos may copy); IsNil reports nil only for the nil-able kinds; ContainsKnownAlpnProto tests nothing but the three known prefixes; the value temperror.New returns has Temporary() in its method set")
+	root := p.Pkg("")
+	if root == nil {
+		r.Unk(rule, "root package", "", "not loaded")
+		return
+	}
+	// --- GetOpts
+	if g := p.Func("", "GetOpts"); g != nil && g.Blocks != nil {
+		bad := ""
+		nNil := 0
+		for _, b := range g.Blocks {
+			ifi, ok := b.Instrs[len(b.Instrs)-1].(*ssa.If)
+			if !ok {
+				continue
+			}
+			bo, isBo := ifi.Cond.(*ssa.BinOp)
+			switch {
+			case isBo && bo.Op == token.LSS:
+				// range bound: i < len(opt)
+				lc, isLen := bo.Y.(*ssa.Call)
+				if !isLen || core.CalleeName(lc.Common()) != "builtin:len" || core.Strip(lc.Call.Args[0]) != ssa.Value(g.Params[0]) {
+					bad = "loop bound at " + p.Pos(ifi.Pos()) + " is not i < len(opt)"
+				}
+			case isBo && (bo.Op == token.EQL || bo.Op == token.NEQ) && (core.IsNilConst(bo.X) || core.IsNilConst(bo.Y)):
+				other := bo.X
+				if core.IsNilConst(bo.X) {
+					other = bo.Y
+				}
+				if _, isElem := elemOf(core.Strip(other)); isElem {
+					// nil option: the nil edge must stay in the loop (continue)
+					nNil++
+					nilEdge := b.Succs[0]
+					if bo.Op == token.NEQ {
+						nilEdge = b.Succs[1]
+					}
+					scc := sccOf(b)
+					if scc == nil || !scc[nilEdge] {
+						bad = "a nil option at " + p.Pos(ifi.Pos()) + " leaves the loop: the options after it are ignored"
+					}
+				}
+				// err != nil of the option call: returns the error (not checked further here)
+			default:
+				bad = "unexpected condition in GetOpts at " + p.Pos(ifi.Pos()) + " (" + ifi.Cond.String() + "): options may be skipped"
+			}
+		}
+		// every option is invoked: a dynamic call of the range element
+		invoked := false
+		for _, ci := range core.AllCalls(g) {
+			if ci.Common().StaticCallee() == nil && !ci.Common().IsInvoke() {
+				if _, isElem := elemOf(core.Strip(ci.Common().Value)); isElem {
+					invoked = true
+				}
+			}
+		}
+		if !invoked && bad == "" {
+			bad = "GetOpts does not invoke the options it ranges over"
+		}
+		r.Check(bad == "", rule, "nodeenrollment.GetOpts applies every option", p.Pos(g.Pos()), fmt.Sprintf("range over the whole list, nil skipped (%d test), each invoked", nNil), bad)
+	} else {
+		r.Unk(rule, "nodeenrollment.GetOpts", "", "not found")
+	}
+	// --- With* constructors
+	exceptions := map[string]string{"WithCertificateLifetime": "zero means the default lifetime", "WithAlpnProtoPrefix": "validated against the three known prefixes", "WithExtraAlpnProtos": "may store an exact copy (R-C16.5)"}
+	var names []string
+	for name := range root.Members {
+		names = append(names, name)
+	}
+	sort.Strings(names)
+	nCons := 0
+	for _, name := range names {
+		fn, ok := root.Members[name].(*ssa.Function)
+		if !ok || !strings.HasPrefix(name, "With") || fn.Blocks == nil || fn.Signature.Results().Len() != 1 || !namedType(fn.Signature.Results().At(0).Type(), mod, "Option") {
+			continue
+		}
+		nCons++
+		construct := "nodeenrollment." + name + " stores its argument"
+		if len(fn.AnonFuncs) != 1 || len(fn.Params) != 1 {
+			r.Bad(rule, construct, p.Pos(fn.Pos()), "the constructor is not a single closure over a single argument")
+			continue
+		}
+		cl := fn.AnonFuncs[0]
+		arg := freeVar(cl, fn.Params[0].Name())
+		bad := ""
+		nStores := 0
+		for _, b := range cl.Blocks {
+			for _, in := range b.Instrs {
+				st, isSt := in.(*ssa.Store)
+				if !isSt {
+					continue
+				}
+				fa, isFA := st.Addr.(*ssa.FieldAddr)
+				if !isFA {
+					continue
+				}
+				tn, f := core.FieldAddrName(fa)
+				if tn != "nodeenrollment.Options" {
+					continue
+				}
+				nStores++
+				if f != name {
+					bad = "writes Options." + f
+				}
+				vp := core.PathOf(st.Val)
+				isArg := arg != nil && vp.Root == ssa.Value(arg) && len(vp.Fields) == 0
+				if !isArg {
+					if _, exc := exceptions[name]; !exc {
+						bad = "stores " + core.ValueName(core.Strip(st.Val)) + ", not its argument"
+					} else if name == "WithCertificateLifetime" {
+						if _, isConst := core.Strip(st.Val).(*ssa.Const); !isConst {
+							bad = "stores " + core.ValueName(core.Strip(st.Val))
+						}
+					}
+				}
+			}
+		}
+		if _, exc := exceptions[name]; !exc || name == "WithExtraAlpnProtos" {
+			// the argument is captured as given: the constructor itself does not branch on it or re-assign it
+			nAssign := 0
+			for _, b := range fn.Blocks {
+				for _, in := range b.Instrs {
+					if st, isSt := in.(*ssa.Store); isSt {
+						if al, isAl := st.Addr.(*ssa.Alloc); isAl && al.Comment == fn.Params[0].Name() {
+							nAssign++
+						}
+					}
+				}
+			}
+			if (len(fn.Blocks) != 1 || nAssign > 1) && name != "WithExtraAlpnProtos" {
+				bad = "the constructor replaces or wraps its argument before capturing it"
+			}
+		}
+		if _, exc := exceptions[name]; !exc {
+			if len(cl.Blocks) != 1 {
+				bad = "the option is applied conditionally (" + fmt.Sprint(len(cl.Blocks)) + " blocks): some argument values are replaced or ignored"
+			}
+			if nStores != 1 && bad == "" {
+				bad = fmt.Sprintf("%d stores into Options", nStores)
+			}
+		} else if nStores == 0 {
+			bad = "never stores its argument"
+		}
+		okDesc := "o." + name + " = argument, unconditionally"
+		if why, exc := exceptions[name]; exc {
+			okDesc = "reviewed exception: " + why
+		}
+		r.Check(bad == "", rule, construct, p.Pos(fn.Pos()), okDesc, "option constructor "+name+" "+bad+": callers configure one value and the library uses another")
+	}
+	if nCons == 0 {
+		r.Unk(rule, "option constructors", "", "no With* constructor found")
+	}
+	// --- IsNil: only nil-able kinds
+	if isn := p.Func("", "IsNil"); isn != nil && isn.Blocks != nil {
+		allowed := map[int64]bool{17: true, 18: true, 19: true, 20: true, 21: true, 22: true, 23: true, 26: true} // Array (as today), Chan, Func, Interface, Map, Pointer, Slice, UnsafePointer
+		bad := ""
+		for _, f := range core.DeepFuncs(isn, core.MaxSummaryDepth) {
+			if f != isn && f.Pkg != isn.Pkg {
+				continue
+			}
+			for _, b := range f.Blocks {
+				for _, in := range b.Instrs {
+					bo, ok := in.(*ssa.BinOp)
+					if !ok || bo.Op != token.EQL {
+						continue
+					}
+					for _, side := range []ssa.Value{bo.X, bo.Y} {
+						if k, isK := core.ConstInt(side); isK && strings.HasSuffix(side.Type().String(), "reflect.Kind") && !allowed[k] {
+							bad = fmt.Sprintf("handles reflect.Kind %d at %s (not a nil-able kind): a non-nil value can be reported as nil", k, p.Pos(bo.Pos()))
+						}
+					}
+				}
+			}
+			if f != isn {
+				bad2 := "IsNil delegates to " + core.FuncName(f)
+				_ = bad2
+			}
+		}
+		r.Check(bad == "", rule, "nodeenrollment.IsNil kinds", p.Pos(isn.Pos()), "true only for a nil interface or a nil chan/func/interface/map/pointer/slice", bad)
+	}
+	// --- ContainsKnownAlpnProto: only prefix tests
+	if ck := p.Func("", "ContainsKnownAlpnProto"); ck != nil && ck.Blocks != nil {
+		bad := ""
+		n := 0
+		for _, b := range ck.Blocks {
+			ifi, ok := b.Instrs[len(b.Instrs)-1].(*ssa.If)
+			if !ok {
+				continue
+			}
+			if hc, isCall := ifi.Cond.(*ssa.Call); isCall && core.CalleeName(hc.Common()) == "strings.HasPrefix" {
+				if _, isC := core.ConstString(hc.Call.Args[1]); isC {
+					n++
+					continue
+				}
+			}
+			if bo, isBo := ifi.Cond.(*ssa.BinOp); isBo && bo.Op == token.LSS {
+				if lc, isLen := bo.Y.(*ssa.Call); isLen && core.CalleeName(lc.Common()) == "builtin:len" {
+					continue // range bound
+				}
+			}
+			bad = "extra condition at " + p.Pos(ifi.Pos()) + " (" + ifi.Cond.String() + "): some known protocol values are not recognised"
+		}
+		r.Check(bad == "" && n >= 1, rule, "nodeenrollment.ContainsKnownAlpnProto conditions", p.Pos(ck.Pos()), fmt.Sprintf("%d constant-prefix tests and the range bound only", n), bad)
+	}
+	// --- temperror.New: the returned value's type has Temporary()
+	if nf := p.Func("util/temperror", "New"); nf != nil && nf.Blocks != nil && nf.Signature.Results().Len() == 1 {
+		rt := nf.Signature.Results().At(0).Type()
+		found := false
+		if _, isIface := rt.Underlying().(*types.Interface); isIface {
+			// returned as an interface: every concrete value put into it must have the method
+			found = true
+			for _, ret := range core.Returns(nf) {
+				for _, src := range flattenPhi(ret.Results[0]) {
+					if mi, ok := src.(*ssa.MakeInterface); ok {
+						ms := p.SSA.MethodSets.MethodSet(mi.X.Type())
+						has := false
+						for i := 0; i < ms.Len(); i++ {
+							if ms.At(i).Obj().Name() == "Temporary" {
+								has = true
+							}
+						}
+						if !has {
+							found = false
+						}
+					}
+				}
+			}
+		} else {
+			ms := p.SSA.MethodSets.MethodSet(rt)
+			for i := 0; i < ms.Len(); i++ {
+				if ms.At(i).Obj().Name() == "Temporary" {
+					found = true
+				}
+			}
+		}
+		r.Check(found, rule, "temperror.New result implements Temporary()", p.Pos(nf.Pos()), "Temporary() is in the method set of the returned type "+rt.String(),
+			"the value temperror.New returns (type "+rt.String()+") has no Temporary() method in its method set: the interface{ Temporary() bool } assertion of accept loops fails and one rejected connection stops the listener")
 	}
 }
